@@ -54,9 +54,11 @@ TEXTS = {
                  "borrows the input when it can); each decoded kind is characterised by an iff on the input "
                  "(Unchanged <-> decoder borrows and no BOM; OnlyUtf8Bom <-> UTF-8 label, well-formed, BOM; Changed "
                  "<-> decoder does not borrow); decode error <-> unsupported label; size = text length; the text is "
-                 "well-formed UTF-8; validator = declarative well-formedness; decoders invert encoders. Tied to the "
+                 "well-formed UTF-8; validator = declarative well-formedness; decoders invert encoders. The JSR deferred "
+                 "content fill drops the response headers: there the decoding clause is proved only for headers naming "
+                 "no charset or UTF-8 and refuted otherwise (known finding F-C20a, confirmed on the real code every run). Tied to the "
                  "code by exhaustive bounded + random differential execution over ~1.1 million (bytes, header, scheme, "
-                 "media, route) combinations per quick run through parse_module and real graph builds."),
+                 "media, route) combinations per quick run through parse_module, real graph builds and real JSR package builds (deferred and cached)."),
         "design_ref": "DESIGN.md section 5 C20",
         "note": ("Trusted: Coq kernel; extraction; harness (generators, oracle call into encoding_rs for legacy labels, "
                  "observation of Module values through the public API). Legacy encodings are oracle data, not modelled. "
